@@ -1,0 +1,851 @@
+//! C13 adapter: the real `RequestResponseProtocol` + `RequestResponseHandle` behind the line
+//! protocol.
+//!
+//! The protocol runs its own `run()` loop as a task of a current-thread tokio runtime with a paused
+//! clock. The harness plays everything around it: it owns the sender of `InnerTransportEvent`s of
+//! the real `TransportService`, the command receivers of every connection, the command receiver of
+//! the transport manager handle and the far end of every substream (real `Substream`s over
+//! in-memory yamux connections). After every operation the runtime is run until no task can make
+//! progress (a 1 ms sleep on the paused clock only returns once every other task is idle).
+//!
+//! Logical time: one unit is 10 s of the paused clock, so that the milliseconds spent settling can
+//! never add up to a unit within a case.
+
+use super::{
+    ConfigBuilder, DialOptions, RejectReason, RequestContext, RequestResponseError,
+    RequestResponseEvent, RequestResponseHandle, RequestResponseProtocol,
+};
+use crate::{
+    addresses::PublicAddresses,
+    codec::ProtocolCodec,
+    error::{ImmediateDialError, NegotiationError, SubstreamError},
+    protocol::{
+        connection::ConnectionHandle, Direction, InnerTransportEvent, Permit, ProtocolCommand,
+        SubstreamKeepAlive, TransportService,
+    },
+    substream::Substream,
+    transport::{
+        manager::{
+            handle::InnerTransportManagerCommand, SupportedTransport, TransportManagerHandle,
+        },
+        tcp, Endpoint,
+    },
+    types::{protocol::ProtocolName, ConnectionId, RequestId, SubstreamId},
+    verif::{peer, peer_index, VerifBox},
+    BandwidthSink, PeerId,
+};
+
+use futures::{future::poll_fn, AsyncReadExt, AsyncWriteExt, FutureExt, StreamExt};
+use multiaddr::Multiaddr;
+use parking_lot::Mutex;
+use tokio::sync::mpsc::{channel, unbounded_channel, Receiver, Sender, UnboundedReceiver, UnboundedSender};
+use tokio_util::compat::{FuturesAsyncReadCompatExt, TokioAsyncReadCompatExt};
+
+use std::{
+    cell::RefCell,
+    collections::{BTreeMap, HashMap, HashSet},
+    io::ErrorKind,
+    sync::Arc,
+    time::Duration,
+};
+
+const UNIT: Duration = Duration::from_secs(10);
+const SETTLE: Duration = Duration::from_millis(1);
+const FOREVER: Duration = Duration::from_secs(10 * 365 * 24 * 3600);
+const PROTOCOL: &str = "/req/1";
+
+/// Numeric value of an id type whose field is private (`RequestId(7)` → 7).
+fn num<T: std::fmt::Debug>(id: &T) -> usize {
+    format!("{id:?}").chars().filter(|c| c.is_ascii_digit()).collect::<String>().parse().expect("id")
+}
+
+/// What is parked in one `pending_dials` slot (a single context before the per-peer queue, a
+/// vector of contexts after it).
+pub(super) trait DialSlot {
+    fn ids(&self) -> Vec<usize>;
+}
+
+impl DialSlot for RequestContext {
+    fn ids(&self) -> Vec<usize> {
+        vec![num(&self.request_id)]
+    }
+}
+
+impl<T: DialSlot> DialSlot for Vec<T> {
+    fn ids(&self) -> Vec<usize> {
+        self.iter().flat_map(|c| c.ids()).collect()
+    }
+}
+
+impl<T: DialSlot> DialSlot for std::collections::VecDeque<T> {
+    fn ids(&self) -> Vec<usize> {
+        self.iter().flat_map(|c| c.ids()).collect()
+    }
+}
+
+/// Copy of the protocol's bookkeeping, taken at the top of every iteration of `run()`.
+#[derive(Default, Clone)]
+struct Snapshot {
+    peers: Vec<(PeerId, Vec<usize>, Vec<usize>)>,
+    dials: Vec<(PeerId, Vec<usize>)>,
+    outbound: Vec<(usize, PeerId, usize)>,
+    cancels: Vec<usize>,
+    futures: usize,
+    inbound_requests: usize,
+    outbound_responses: usize,
+}
+
+thread_local! {
+    static SNAP: RefCell<Snapshot> = RefCell::new(Snapshot::default());
+}
+
+impl RequestResponseProtocol {
+    /// Publish the bookkeeping to the adapter (called by the hook line in `run()`).
+    pub(super) fn verif_snapshot(&self) {
+        let snap = Snapshot {
+            peers: self
+                .peers
+                .iter()
+                .map(|(p, c)| {
+                    (
+                        *p,
+                        c.active.iter().map(num).collect(),
+                        c.active_inbound.keys().map(num).collect(),
+                    )
+                })
+                .collect(),
+            dials: self.pending_dials.iter().map(|(p, c)| (*p, c.ids())).collect(),
+            outbound: self
+                .pending_outbound
+                .iter()
+                .map(|(s, c)| (num(s), c.peer, num(&c.request_id)))
+                .collect(),
+            cancels: self.pending_outbound_cancels.keys().map(num).collect(),
+            futures: self.pending_inbound.len(),
+            inbound_requests: self.pending_inbound_requests.len(),
+            outbound_responses: self.pending_outbound_responses.len(),
+        };
+        SNAP.with(|s| *s.borrow_mut() = snap);
+    }
+}
+
+/// Payload `(len, fill)`: byte `j` is `(fill + j) mod 256`.
+fn payload(len: usize, fill: usize) -> Vec<u8> {
+    (0..len).map(|j| ((fill + j) % 256) as u8).collect()
+}
+
+/// Position-dependent checksum.
+fn checksum(b: &[u8]) -> u64 {
+    b.iter().enumerate().fold(0u64, |acc, (j, x)| (acc + (j as u64 % 251 + 1) * (*x as u64)) % 65521)
+}
+
+fn show(b: &[u8]) -> String {
+    format!("{}:{}", b.len(), checksum(b))
+}
+
+/// Unsigned-varint framing of a message.
+fn framed(b: &[u8]) -> Vec<u8> {
+    let mut buffer = unsigned_varint::encode::usize_buffer();
+    let mut out = unsigned_varint::encode::usize(b.len(), &mut buffer).to_vec();
+    out.extend_from_slice(b);
+    out
+}
+
+/// What the far end of a substream has received so far: complete frames, leftover bytes.
+fn deframe(mut b: &[u8]) -> (Vec<Vec<u8>>, usize) {
+    let mut frames = Vec::new();
+    loop {
+        match unsigned_varint::decode::usize(b) {
+            Ok((len, rest)) if rest.len() >= len => {
+                frames.push(rest[..len].to_vec());
+                b = &rest[len..];
+            }
+            _ => return (frames, b.len()),
+        }
+    }
+}
+
+fn dial_error(e: &ImmediateDialError) -> &'static str {
+    match e {
+        ImmediateDialError::NoAddressAvailable => "no-address",
+        ImmediateDialError::AlreadyConnected => "already-connected",
+        ImmediateDialError::ChannelClogged => "clogged",
+        ImmediateDialError::TriedToDialSelf => "self",
+        _ => "other",
+    }
+}
+
+fn substream_error(e: &SubstreamError) -> &'static str {
+    match e {
+        SubstreamError::ConnectionClosed => "closed",
+        SubstreamError::ChannelClogged => "clogged",
+        SubstreamError::PeerDoesNotExist(_) => "no-peer",
+        SubstreamError::ReadFailure(_) => "read-failure",
+        SubstreamError::NegotiationError(NegotiationError::Timeout) => "negotiation-timeout",
+        _ => "other",
+    }
+}
+
+fn error_word(e: &RequestResponseError) -> String {
+    match e {
+        RequestResponseError::Rejected(RejectReason::ConnectionClosed) => "conn-closed".into(),
+        RequestResponseError::Rejected(RejectReason::SubstreamClosed) => "substream-closed".into(),
+        RequestResponseError::Rejected(RejectReason::DialFailed(None)) => "dial-failed".into(),
+        RequestResponseError::Rejected(RejectReason::DialFailed(Some(e))) =>
+            format!("dial-failed:{}", dial_error(e)),
+        RequestResponseError::Rejected(RejectReason::SubstreamOpenError(e)) =>
+            format!("open-error:{}", substream_error(e)),
+        RequestResponseError::Canceled => "canceled".into(),
+        RequestResponseError::Timeout => "timeout".into(),
+        RequestResponseError::NotConnected => "not-connected".into(),
+        RequestResponseError::TooLargePayload => "too-large".into(),
+        RequestResponseError::UnsupportedProtocol => "unsupported".into(),
+    }
+}
+
+enum EndCmd {
+    Write(Vec<u8>),
+    Close,
+}
+
+#[derive(Default)]
+struct EndShared {
+    data: Vec<u8>,
+    eof: bool,
+}
+
+/// Far end of a substream, owned by the harness: everything the protocol writes is read at once.
+struct End {
+    cmd: UnboundedSender<EndCmd>,
+    shared: Arc<Mutex<EndShared>>,
+}
+
+impl End {
+    fn spawn(mut stream: crate::yamux::Stream) -> End {
+        let (cmd, mut rx) = unbounded_channel();
+        let shared = Arc::new(Mutex::new(EndShared::default()));
+        let shared2 = Arc::clone(&shared);
+        tokio::spawn(async move {
+            let mut buf = vec![0u8; 16384];
+            let mut eof = false;
+            loop {
+                tokio::select! {
+                    biased;
+                    c = rx.recv() => match c {
+                        Some(EndCmd::Write(bytes)) => {
+                            let _ = stream.write_all(&bytes).await;
+                            let _ = stream.flush().await;
+                        }
+                        Some(EndCmd::Close) => {
+                            let _ = stream.close().await;
+                        }
+                        None => break,
+                    },
+                    r = stream.read(&mut buf), if !eof => match r {
+                        Ok(0) | Err(_) => {
+                            eof = true;
+                            shared2.lock().eof = true;
+                        }
+                        Ok(n) => shared2.lock().data.extend_from_slice(&buf[..n]),
+                    },
+                }
+            }
+        });
+        End { cmd, shared }
+    }
+
+    /// `<frames as len:sum joined by +>[~<leftover bytes>][.eof]`
+    fn view(&self) -> String {
+        let s = self.shared.lock();
+        let (frames, rest) = deframe(&s.data);
+        let mut out = if frames.is_empty() {
+            "nothing".to_string()
+        } else {
+            frames.iter().map(|f| show(f)).collect::<Vec<_>>().join("+")
+        };
+        if rest > 0 {
+            out.push_str(&format!("~{rest}"));
+        }
+        if s.eof {
+            out.push_str(".eof");
+        }
+        out
+    }
+}
+
+/// One in-memory yamux connection carrying one substream: the client's outbound stream and the
+/// receiver on which the server's matching inbound stream shows up once the client has written.
+async fn yamux_pair() -> (crate::yamux::Stream, UnboundedReceiver<crate::yamux::Stream>) {
+    let (a, b) = tokio::io::duplex(1 << 16);
+    let mut client =
+        crate::yamux::Connection::new(a.compat(), crate::yamux::Config::default(), crate::yamux::Mode::Client);
+    let mut server =
+        crate::yamux::Connection::new(b.compat(), crate::yamux::Config::default(), crate::yamux::Mode::Server);
+    let stream = poll_fn(|cx| client.poll_new_outbound(cx)).await.expect("outbound stream");
+    tokio::spawn(async move {
+        while let Some(Ok(_)) = poll_fn(|cx| client.poll_next_inbound(cx)).await {}
+    });
+    let (tx, rx) = unbounded_channel();
+    tokio::spawn(async move {
+        while let Some(Ok(s)) = poll_fn(|cx| server.poll_next_inbound(cx)).await {
+            let _ = tx.send(s);
+        }
+    });
+    (stream, rx)
+}
+
+struct Conn {
+    tx: Sender<ProtocolCommand>,
+    rx: Option<Receiver<ProtocolCommand>>,
+}
+
+/// Responder side of an outbound request's substream.
+struct Responder {
+    incoming: UnboundedReceiver<crate::yamux::Stream>,
+    end: Option<End>,
+}
+
+struct Inbound {
+    end: End,
+    rest: Vec<u8>,
+}
+
+struct Inner {
+    handle: RequestResponseHandle,
+    tx: Sender<InnerTransportEvent>,
+    cmd_rx: Receiver<InnerTransportManagerCommand>,
+    codec: ProtocolCodec,
+    conns: BTreeMap<(u64, u64), Conn>,
+    /// `r<k>` → real request id.
+    sends: Vec<Option<usize>>,
+    /// `i<k>` → far end (if the substream was created).
+    inbounds: Vec<Option<Inbound>>,
+    /// real request id → printed name.
+    names: HashMap<usize, String>,
+    /// the request id allocator shared by the handle and the protocol.
+    counter: Arc<std::sync::atomic::AtomicUsize>,
+    /// real substream id → number by first appearance.
+    subs: HashMap<usize, usize>,
+    /// substream-open commands not yet answered: real substream id → (peer, conn, permit).
+    opens: HashMap<usize, (u64, u64, Permit)>,
+    /// `r<k>` → responder.
+    responders: HashMap<usize, Responder>,
+}
+
+pub struct RrBox {
+    inner: Option<Inner>,
+    rt: tokio::runtime::Runtime,
+}
+
+impl RrBox {
+    pub fn new() -> Self {
+        let rt = tokio::runtime::Builder::new_current_thread()
+            .enable_time()
+            .start_paused(true)
+            .build()
+            .expect("runtime");
+        Self { inner: None, rt }
+    }
+}
+
+fn parse_kv<'a>(t: &[&'a str], key: &str) -> Option<&'a str> {
+    t.iter().find_map(|a| a.split_once('=').filter(|(k, _)| *k == key).map(|(_, v)| v))
+}
+
+fn index(s: &str, prefix: char) -> Option<usize> {
+    s.strip_prefix(prefix)?.parse().ok()
+}
+
+impl Inner {
+    fn create(max: usize, timeout: u32, inmax: Option<usize>) -> Inner {
+        let local = peer(0);
+        let (cmd_tx, cmd_rx) = channel(4096);
+        let mut manager_handle = TransportManagerHandle::new(
+            local,
+            Arc::new(Default::default()),
+            cmd_tx,
+            HashSet::from_iter([SupportedTransport::Tcp]),
+            Default::default(),
+            PublicAddresses::new(local),
+        );
+        // peers 1..=3 are dialable, every other peer has no known address
+        for i in 1..=3u64 {
+            let address: Multiaddr =
+                format!("/ip4/10.0.0.{i}/tcp/4444/p2p/{}", peer(i)).parse().expect("address");
+            assert_eq!(manager_handle.add_known_address(&peer(i), std::iter::once(address)), 1);
+        }
+        let (service, tx) = TransportService::new(
+            local,
+            ProtocolName::from(PROTOCOL),
+            Vec::new(),
+            Arc::new(Default::default()),
+            manager_handle,
+            FOREVER,
+            SubstreamKeepAlive::Yes,
+        );
+        let mut builder = ConfigBuilder::new(ProtocolName::from(PROTOCOL))
+            .with_max_size(max)
+            .with_timeout(UNIT * timeout);
+        if let Some(n) = inmax {
+            builder = builder.with_max_concurrent_inbound_requests(n);
+        }
+        let (config, handle) = builder.build();
+        let codec = config.codec.clone();
+        let counter = Arc::clone(&config.next_request_id);
+        SNAP.with(|s| *s.borrow_mut() = Snapshot::default());
+        tokio::spawn(RequestResponseProtocol::new(service, config).run());
+        Inner {
+            handle,
+            tx,
+            cmd_rx,
+            codec,
+            conns: BTreeMap::new(),
+            sends: Vec::new(),
+            inbounds: Vec::new(),
+            names: HashMap::new(),
+            counter,
+            subs: HashMap::new(),
+            opens: HashMap::new(),
+            responders: HashMap::new(),
+        }
+    }
+
+    async fn settle(&mut self) {
+        tokio::time::sleep(SETTLE).await;
+    }
+
+    fn name(&self, id: usize) -> String {
+        self.names.get(&id).cloned().unwrap_or_else(|| format!("?{id}"))
+    }
+
+    fn peer_name(p: &PeerId) -> String {
+        peer_index(p).map_or("?".into(), |i| i.to_string())
+    }
+
+    /// Service calls made and events delivered since the last drain.
+    fn drain(&mut self) -> String {
+        let mut calls = Vec::new();
+        while let Ok(cmd) = self.cmd_rx.try_recv() {
+            if let InnerTransportManagerCommand::DialPeer { peer } = cmd {
+                calls.push(format!("dial:{}", Self::peer_name(&peer)));
+            }
+        }
+        let mut opened = Vec::new();
+        for ((p, c), conn) in self.conns.iter_mut() {
+            if let Some(rx) = conn.rx.as_mut() {
+                while let Ok(cmd) = rx.try_recv() {
+                    if let ProtocolCommand::OpenSubstream { substream_id, permit, .. } = cmd {
+                        opened.push((num(&substream_id), *p, *c, permit));
+                    }
+                }
+            }
+        }
+        opened.sort_by_key(|o| o.0);
+        for (sid, p, c, permit) in opened {
+            let n = self.subs.len();
+            let n = *self.subs.entry(sid).or_insert(n);
+            self.opens.insert(sid, (p, c, permit));
+            calls.push(format!("open:{p}:s{n}"));
+        }
+        let mut events = Vec::new();
+        while let Some(Some(event)) = self.handle.next().now_or_never() {
+            events.push(match event {
+                RequestResponseEvent::RequestReceived { peer, request_id, request, .. } => {
+                    format!("req:{}:{}:{}", self.name(num(&request_id)), Self::peer_name(&peer), show(&request))
+                }
+                RequestResponseEvent::ResponseReceived { request_id, response, .. } =>
+                    format!("resp:{}:{}", self.name(num(&request_id)), show(&response)),
+                RequestResponseEvent::RequestFailed { request_id, error, .. } =>
+                    format!("failed:{}:{}", self.name(num(&request_id)), error_word(&error)),
+            });
+        }
+        events.sort();
+        let j = |v: Vec<String>| if v.is_empty() { "-".to_string() } else { v.join(",") };
+        format!("{};{}", j(calls), j(events))
+    }
+
+    fn snapshot() -> Snapshot {
+        SNAP.with(|s| s.borrow().clone())
+    }
+
+    fn state(&self) -> String {
+        let s = Self::snapshot();
+        let ids = |v: &Vec<usize>| {
+            let mut v: Vec<String> = v.iter().map(|i| self.name(*i)).collect();
+            v.sort();
+            v.join("+")
+        };
+        let mut peers: Vec<String> = s
+            .peers
+            .iter()
+            .map(|(p, a, i)| format!("{}:[{}]:[{}]", Self::peer_name(p), ids(a), ids(i)))
+            .collect();
+        peers.sort();
+        // queue order of the pending dials is part of the observation
+        let mut dials: Vec<String> = s
+            .dials
+            .iter()
+            .map(|(p, v)| {
+                format!("{}:[{}]", Self::peer_name(p), v.iter().map(|i| self.name(*i)).collect::<Vec<_>>().join("+"))
+            })
+            .collect();
+        dials.sort();
+        let mut out: Vec<String> = s
+            .outbound
+            .iter()
+            .map(|(sid, p, r)| {
+                format!("s{}:{}:{}", self.subs.get(sid).map_or("?".into(), |n| n.to_string()), Self::peer_name(p), self.name(*r))
+            })
+            .collect();
+        out.sort();
+        format!(
+            "peers={} dials={} outbound={} cancels=[{}] futures={} inreqs={} outresps={}",
+            peers.join(","),
+            dials.join(","),
+            out.join(","),
+            ids(&s.cancels),
+            s.futures,
+            s.inbound_requests,
+            s.outbound_responses
+        )
+    }
+
+    async fn step(&mut self, line: &str) -> String {
+        let t: Vec<&str> = line.split_whitespace().collect();
+        let n = |s: &str| s.parse::<usize>().ok();
+        let res: String = match t.as_slice() {
+            ["send", p, len, fill, mode] => {
+                let (Some(p), Some(len), Some(fill)) = (n(p), n(len), n(fill)) else { return "bad-op".into() };
+                let options = match *mode {
+                    "dial" => DialOptions::Dial,
+                    "reject" => DialOptions::Reject,
+                    _ => return "bad-op".into(),
+                };
+                let k = self.sends.len();
+                match self.handle.try_send_request(peer(p as u64), payload(len, fill), options) {
+                    Ok(id) => {
+                        self.sends.push(Some(num(&id)));
+                        self.names.insert(num(&id), format!("r{k}"));
+                        format!("r{k}")
+                    }
+                    Err(_) => {
+                        self.sends.push(None);
+                        "clogged".into()
+                    }
+                }
+            }
+            ["cancel", r] => match index(r, 'r').and_then(|k| self.sends.get(k).copied().flatten()) {
+                Some(id) => {
+                    self.handle.cancel_request(RequestId::from(id)).await;
+                    "ok".into()
+                }
+                None => "none".into(),
+            },
+            ["ev", "established", p, c, rest @ ..] => {
+                let (Some(p), Some(c)) = (n(p), n(c)) else { return "bad-op".into() };
+                let (p, c) = (p as u64, c as u64);
+                // at most two connections per peer (the transport manager never reports more)
+                if self.conns.contains_key(&(p, c)) || self.conns.keys().filter(|k| k.0 == p).count() >= 2 {
+                    "none".into()
+                } else {
+                    let (tx, rx) = channel(4096);
+                    // `dead`: the connection task is already gone when the event is handled
+                    let rx = if rest.first() == Some(&"dead") { None } else { Some(rx) };
+                    let address: Multiaddr = format!("/ip4/10.0.0.{p}/tcp/4444").parse().expect("address");
+                    let _ = self
+                        .tx
+                        .send(InnerTransportEvent::ConnectionEstablished {
+                            peer: peer(p),
+                            connection: ConnectionId::from(c as usize),
+                            endpoint: Endpoint::dialer(address, ConnectionId::from(c as usize)),
+                            sender: ConnectionHandle::new(ConnectionId::from(c as usize), tx.clone()),
+                        })
+                        .await;
+                    self.conns.insert((p, c), Conn { tx, rx });
+                    "ok".into()
+                }
+            }
+            ["ev", "closed", p, c] => {
+                let (Some(p), Some(c)) = (n(p), n(c)) else { return "bad-op".into() };
+                let (p, c) = (p as u64, c as u64);
+                match self.conns.remove(&(p, c)) {
+                    None => "none".into(),
+                    Some(_) => {
+                        let _ = self
+                            .tx
+                            .send(InnerTransportEvent::ConnectionClosed {
+                                peer: peer(p),
+                                connection: ConnectionId::from(c as usize),
+                            })
+                            .await;
+                        "ok".into()
+                    }
+                }
+            }
+            ["ev", "conndead", p, c] => {
+                let (Some(p), Some(c)) = (n(p), n(c)) else { return "bad-op".into() };
+                match self.conns.get_mut(&(p as u64, c as u64)) {
+                    Some(conn) if conn.rx.is_some() => {
+                        conn.rx = None;
+                        "ok".into()
+                    }
+                    _ => "none".into(),
+                }
+            }
+            ["ev", "dialfail", p] => {
+                let Some(p) = n(p) else { return "bad-op".into() };
+                let _ = self
+                    .tx
+                    .send(InnerTransportEvent::DialFailure { peer: peer(p as u64), addresses: Vec::new() })
+                    .await;
+                "ok".into()
+            }
+            ["ev", kind @ ("subopen" | "subfail"), r, rest @ ..] => {
+                let Some(k) = index(r, 'r') else { return "bad-op".into() };
+                let id = self.sends.get(k).copied().flatten();
+                let snap = Self::snapshot();
+                let sid = id.and_then(|id| snap.outbound.iter().find(|o| o.2 == id).map(|o| o.0));
+                match sid.and_then(|sid| self.opens.remove(&sid).map(|o| (sid, o))) {
+                    None => "none".into(),
+                    Some((sid, (p, c, permit))) if *kind == "subopen" => {
+                        let (stream, incoming) = yamux_pair().await;
+                        let io = tcp::Substream::new(stream.compat(), BandwidthSink::new(), None);
+                        let substream =
+                            Substream::new_tcp(peer(p), SubstreamId::from(sid), io, self.codec.clone());
+                        let _ = self
+                            .tx
+                            .send(InnerTransportEvent::SubstreamOpened {
+                                peer: peer(p),
+                                protocol: ProtocolName::from(PROTOCOL),
+                                fallback: None,
+                                direction: Direction::Outbound(SubstreamId::from(sid)),
+                                connection_id: ConnectionId::from(c as usize),
+                                substream,
+                                opening_permit: permit,
+                            })
+                            .await;
+                        self.responders.insert(k, Responder { incoming, end: None });
+                        self.settle().await;
+                        let got = self.responder_view(k).await;
+                        format!("opened:{got}")
+                    }
+                    Some((sid, _)) => {
+                        let error = match rest.first().copied() {
+                            Some("unsupported") => SubstreamError::NegotiationError(
+                                NegotiationError::MultistreamSelectError(
+                                    crate::multistream_select::NegotiationError::Failed,
+                                ),
+                            ),
+                            Some("notconn") => SubstreamError::IoError(ErrorKind::NotConnected),
+                            Some("timeout") => SubstreamError::NegotiationError(NegotiationError::Timeout),
+                            _ => SubstreamError::ConnectionClosed,
+                        };
+                        let _ = self
+                            .tx
+                            .send(InnerTransportEvent::SubstreamOpenFailure {
+                                substream: SubstreamId::from(sid),
+                                error,
+                            })
+                            .await;
+                        "ok".into()
+                    }
+                }
+            }
+            [op @ ("respond" | "reject" | "close"), r, rest @ ..] => {
+                let Some(k) = index(r, 'r') else { return "bad-op".into() };
+                let _ = self.responder_view(k).await;
+                match self.responders.get(&k).and_then(|r| r.end.as_ref()) {
+                    None => "none".into(),
+                    Some(end) => {
+                        match (*op, rest) {
+                            ("respond", [len, fill]) => {
+                                let (Some(len), Some(fill)) = (n(len), n(fill)) else { return "bad-op".into() };
+                                let _ = end.cmd.send(EndCmd::Write(framed(&payload(len, fill))));
+                                let _ = end.cmd.send(EndCmd::Close);
+                            }
+                            ("reject", []) => {
+                                let _ = end.cmd.send(EndCmd::Close);
+                            }
+                            ("close", [at, len, fill]) => {
+                                let (Some(at), Some(len), Some(fill)) =
+                                    (parse_kv(&[at], "at").and_then(n), n(len), n(fill))
+                                else {
+                                    return "bad-op".into();
+                                };
+                                let bytes = framed(&payload(len, fill));
+                                let at = at.min(bytes.len());
+                                let _ = end.cmd.send(EndCmd::Write(bytes[..at].to_vec()));
+                                let _ = end.cmd.send(EndCmd::Close);
+                            }
+                            _ => return "bad-op".into(),
+                        }
+                        // a substream answers once
+                        self.responders.remove(&k);
+                        "ok".into()
+                    }
+                }
+            }
+            ["inbound", p, len, fill, rest @ ..] => {
+                let (Some(p), Some(len), Some(fill)) = (n(p), n(len), n(fill)) else { return "bad-op".into() };
+                let hold = rest.first() == Some(&"hold");
+                let k = self.inbounds.len();
+                // the substream arrives over the peer's lowest-numbered connection, if any
+                let conn = self.conns.iter().find(|((q, _), _)| *q == p as u64).map(|((_, c), conn)| (*c, conn.tx.clone()));
+                match conn {
+                    None => {
+                        self.inbounds.push(None);
+                        format!("i{k}:no-connection")
+                    }
+                    Some((c, ctx)) => {
+                        let (stream, mut incoming) = yamux_pair().await;
+                        let end = End::spawn(stream);
+                        let bytes = framed(&payload(len, fill));
+                        let first = if hold { 1 } else { bytes.len() };
+                        let _ = end.cmd.send(EndCmd::Write(bytes[..first].to_vec()));
+                        self.settle().await;
+                        let stream = incoming.try_recv().expect("server side of the substream");
+                        let io = tcp::Substream::new(stream.compat(), BandwidthSink::new(), None);
+                        let before = self.counter.load(std::sync::atomic::Ordering::Relaxed);
+                        let substream = Substream::new_tcp(
+                            peer(p as u64),
+                            SubstreamId::from(1_000_000 + k),
+                            io,
+                            self.codec.clone(),
+                        );
+                        let _ = self
+                            .tx
+                            .send(InnerTransportEvent::SubstreamOpened {
+                                peer: peer(p as u64),
+                                protocol: ProtocolName::from(PROTOCOL),
+                                fallback: None,
+                                direction: Direction::Inbound,
+                                connection_id: ConnectionId::from(c as usize),
+                                substream,
+                                opening_permit: Permit::new(ctx),
+                            })
+                            .await;
+                        self.inbounds.push(Some(Inbound { end, rest: bytes[first..].to_vec() }));
+                        // name the request id the protocol allocated for this substream
+                        self.settle().await;
+                        if self.counter.load(std::sync::atomic::Ordering::Relaxed) == before + 1 {
+                            self.names.insert(before, format!("i{k}"));
+                        }
+                        format!("i{k}")
+                    }
+                }
+            }
+            ["feed", i] => match index(i, 'i').and_then(|k| self.inbounds.get_mut(k)).and_then(|x| x.as_mut()) {
+                Some(inb) if !inb.rest.is_empty() => {
+                    let rest = std::mem::take(&mut inb.rest);
+                    let _ = inb.end.cmd.send(EndCmd::Write(rest));
+                    "ok".into()
+                }
+                _ => "none".into(),
+            },
+            ["drop", i] => match index(i, 'i').and_then(|k| self.inbounds.get_mut(k)).and_then(|x| x.as_mut()) {
+                Some(inb) => {
+                    inb.rest.clear();
+                    let _ = inb.end.cmd.send(EndCmd::Close);
+                    "ok".into()
+                }
+                None => "none".into(),
+            },
+            ["answer", i, len, fill] => {
+                let (Some(k), Some(len), Some(fill)) = (index(i, 'i'), n(len), n(fill)) else { return "bad-op".into() };
+                match self.names.iter().find(|(_, v)| **v == format!("i{k}")).map(|(id, _)| *id) {
+                    Some(id) => {
+                        self.handle.send_response(RequestId::from(id), payload(len, fill));
+                        "ok".into()
+                    }
+                    None => "none".into(),
+                }
+            }
+            ["refuse", i] => {
+                let Some(k) = index(i, 'i') else { return "bad-op".into() };
+                match self.names.iter().find(|(_, v)| **v == format!("i{k}")).map(|(id, _)| *id) {
+                    Some(id) => {
+                        self.handle.reject_request(RequestId::from(id));
+                        "ok".into()
+                    }
+                    None => "none".into(),
+                }
+            }
+            ["remote", i] => {
+                // what the remote requester of `i<k>` has received so far
+                match index(i, 'i').and_then(|k| self.inbounds.get(k)).and_then(|x| x.as_ref()) {
+                    Some(inb) => inb.end.view(),
+                    None => "none".into(),
+                }
+            }
+            ["advance", units] => {
+                let Some(units) = n(units) else { return "bad-op".into() };
+                tokio::time::advance(UNIT * units as u32).await;
+                "ok".into()
+            }
+            ["state"] => {
+                self.settle().await;
+                return self.state();
+            }
+            _ => return "bad-op".into(),
+        };
+        self.settle().await;
+        // two rounds: reading a request to its end and handing it to the user are separate wake-ups
+        self.settle().await;
+        let tail = self.drain();
+        let res = if let ["remote", ..] = t.as_slice() { res } else { self.with_remote(&t, res) };
+        format!("{res};{tail}")
+    }
+
+    /// After `answer`/`refuse`/`inbound`/`feed`/`drop`, append what the remote requester sees.
+    fn with_remote(&self, t: &[&str], res: String) -> String {
+        let k = match t {
+            ["answer" | "refuse" | "feed" | "drop", i, ..] => index(i, 'i'),
+            ["inbound", ..] => Some(self.inbounds.len().saturating_sub(1)),
+            _ => None,
+        };
+        match k.and_then(|k| self.inbounds.get(k)).and_then(|x| x.as_ref()) {
+            Some(inb) if res != "none" => format!("{res}:remote={}", inb.end.view()),
+            _ => res,
+        }
+    }
+
+    /// Attach the responder's end once the protocol has written, and report what it received.
+    async fn responder_view(&mut self, k: usize) -> String {
+        let Some(r) = self.responders.get_mut(&k) else { return "nothing".into() };
+        if r.end.is_none() {
+            if let Ok(stream) = r.incoming.try_recv() {
+                r.end = Some(End::spawn(stream));
+                tokio::time::sleep(SETTLE).await;
+            }
+        }
+        match self.responders.get(&k).and_then(|r| r.end.as_ref()) {
+            Some(end) => end.view(),
+            None => "nothing".into(),
+        }
+    }
+}
+
+impl VerifBox for RrBox {
+    fn step(&mut self, line: &str) -> String {
+        let t: Vec<&str> = line.split_whitespace().collect();
+        if let ["cfg", rest @ ..] = t.as_slice() {
+            let max = parse_kv(rest, "max").and_then(|v| v.parse().ok());
+            let timeout = parse_kv(rest, "timeout").and_then(|v| v.parse().ok());
+            let inmax = match parse_kv(rest, "inmax") {
+                Some("none") => Some(None),
+                Some(v) => v.parse().ok().map(Some),
+                None => None,
+            };
+            let (Some(max), Some(timeout), Some(inmax)) = (max, timeout, inmax) else {
+                return "bad-op".into();
+            };
+            // the old protocol task dies with its channels
+            self.inner = None;
+            let inner = self.rt.block_on(async { Inner::create(max, timeout, inmax) });
+            self.inner = Some(inner);
+            return "ok".into();
+        }
+        let Some(inner) = self.inner.as_mut() else { return "bad-op".into() };
+        self.rt.block_on(inner.step(line))
+    }
+}
